@@ -197,3 +197,46 @@ def residual_error_shapes(ctx, p):
                     out.add(q.ret_shape())
         return out or {"any:%s" % dst}, conv
     return {"any:%s" % (dst or "?")}, "error of %s passed through" % pa.short(inner[1] if inner[0] == "call" else "?")
+
+
+def taint_locals(body, seeds, skip_calls=()):
+    """Flow-insensitive taint over the locals of one MIR body. `seeds`: {local: set(labels)}. A local is tainted by a label when a
+    value derived from a seed may reach it: through assignments (any operand place rooted in a tainted local), references,
+    aggregates (closures capture), call results (any tainted argument) and `&mut x` arguments of calls (x may be rewritten from the
+    other arguments). Returns {local: set(labels)}."""
+    taint = {l: set(v) for l, v in seeds.items()}
+    refs = {}       # local holding `&mut x` / `&x` -> x
+    for bb, i, st in body.all_stmts():
+        if st.s == "assign" and st.rv.rv in ("ref", "rawptr") and st.place.is_local() and st.rv.place is not None:
+            refs[st.place.local] = st.rv.place.local
+
+    def of(pl):
+        return taint.get(pl.local, set()) if pl is not None else set()
+    changed = True
+    while changed:
+        changed = False
+        for bb, i, st in body.all_stmts():
+            if st.s != "assign":
+                continue
+            src = set()
+            if st.rv.place is not None:
+                src |= of(st.rv.place)
+            for o in st.rv.ops:
+                if o.place is not None:
+                    src |= of(o.place)
+            if src - taint.get(st.place.local, set()):
+                taint.setdefault(st.place.local, set()).update(src)
+                changed = True
+        for bb, t in body.all_terms():
+            if t.t != "call" or bb in skip_calls:       # (skip_calls: blocks whose call is not a derivation, e.g. the operation observed)
+                continue
+            src = set()
+            for a in t.args:
+                if a.place is not None:
+                    src |= of(a.place)
+            targets = [t.dest.local] + [refs[a.place.local] for a in t.args if a.place is not None and a.place.is_local() and a.place.local in refs]
+            for l in targets:
+                if src - taint.get(l, set()):
+                    taint.setdefault(l, set()).update(src)
+                    changed = True
+    return taint
